@@ -15,7 +15,7 @@ CONSTANT Tier        \* "quick" or "thorough"
 
 Q == Tier = "quick"
 Dom == [
-  poolAmts   |-> IF Q THEN {0, 2, 9, 10, 13, 24, 30}
+  poolAmts   |-> IF Q THEN {0, 2, 9, 13, 24, 30}
                       ELSE {0, 2, 5, 9, 10, 13, 17, 24, 30},
   deltaAmts  |-> IF Q THEN {-30, -17, -10, -1, 0, 1, 4, 17, 30}
                       ELSE {-30, -24, -17, -10, -4, -1, 0, 1, 4, 7, 10, 17, 30},
@@ -23,8 +23,8 @@ Dom == [
   exps       |-> {Unit, 2 * Unit, 3 * Unit},
   factorPairs |-> IF Q THEN {<<0, 3>>, <<1, 2>>, <<2, 2>>, <<3, 1>>, <<1, 6>>, <<4, 5>>, <<6, 6>>}
                        ELSE {<<0, 3>>, <<1, 2>>, <<2, 2>>, <<3, 1>>, <<1, 6>>, <<4, 5>>, <<6, 1>>, <<6, 6>>},
-  mid        |-> IF Q THEN 32 ELSE 48,
-  swapAmts   |-> IF Q THEN {0, 7, 12, 20, 30} ELSE {0, 3, 7, 12, 20, 30},
+  mid        |-> IF Q THEN 24 ELSE 48,
+  swapAmts   |-> IF Q THEN {0, 7, 20, 30} ELSE {0, 3, 7, 12, 20, 30},
   swapDeltas |-> {-20, -8, -3, 0, 3, 8, 20},
   viAmts     |-> IF Q THEN {0, 12} ELSE {0, 9, 25},
   swapPrices |-> {<<1, 1>>, <<2, 1>>},
